@@ -161,6 +161,11 @@ class C13(Check):
                 if interval == 0 and fn == 'doPoll':
                     for e in sc:
                         e[0] = max(e[0], 0.05)
+                if fn.startswith('read_n'):
+                    # only the commander task calls these; it would hold the module's access lock
+                    # for the scripted duration and delay the poll thread beyond one sweep
+                    for e in sc:
+                        e[0] = 0.0
                 spec['scripts'][fn] = sc
             if interval == 0 or min(interval, slow) <= 0.1:
                 horizon = min(horizon, 20.0)
